@@ -15,7 +15,8 @@ RULE = ("Episodic discounted MDP specs with uniform action sets (gamma in {.5,.8
         "reward_matrix.max() (R-MAX's own precondition). A recording listener captures the history; the empirical "
         "model of the first m samples per pair is rebuilt independently. Non-trivial: some pair reached the "
         "threshold and some did not, and >=2 episodes; distinct by spec hash."
-        ' Also: rmax given as float32 / float64 / int, reward ranges of +-90, the object-reuse relation in both directions (policy included).')
+        ' Also: rmax given as float32 / float64 / int, reward ranges of +-90, the object-reuse relation in both directions (policy included).'
+        ' Sample thresholds of 256-300 with 700-1000 episodes.')
 ASSUMPTIONS = ["history observed through the public event_listener_class hook",
                "a 30 s alarm around train_on turns a non-terminating inner loop into 'inconclusive'"]
 
